@@ -125,6 +125,28 @@ func (e *Engine) prepareContract(ct *Contract) (*ssa.Function, error) {
 			}
 		}
 	}
+	for k := range ct.CallReqs {
+		// type-check in the scope of the first call through that function value
+		cpos := bodyPos
+		if syn, ok := fn.Syntax().(*ast.FuncDecl); ok && syn.Body != nil {
+			found := false
+			ast.Inspect(syn.Body, func(n ast.Node) bool {
+				if ce, ok := n.(*ast.CallExpr); ok && !found {
+					if id, ok := ce.Fun.(*ast.Ident); ok && id.Name == k {
+						cpos = ce.Pos()
+						found = true
+					}
+				}
+				return !found
+			})
+		}
+		pos = cpos
+		for i := range ct.CallReqs[k] {
+			if err := chk(&ct.CallReqs[k][i], extra, "callreq"); err != nil {
+				return nil, err
+			}
+		}
+	}
 	for k := range ct.Decreases {
 		pos = loopPosFor(k)
 		for i := range ct.Decreases[k] {
@@ -399,6 +421,10 @@ func (fx *FuncCtx) bindLoopLocals(env *SpecEnv, st *State, f *Frame) {
 			}
 		}
 	}
+	fx.bindLocals(env, st, f)
+}
+
+func (fx *FuncCtx) bindLocals(env *SpecEnv, st *State, f *Frame) {
 	for name, v := range f.locals {
 		if _, isGhost := fx.ghost[name]; isGhost && f.ct == fx.ct {
 			continue
